@@ -1,5 +1,8 @@
 """C08 - configuration accepted and valued exactly as documented: model vs robsd-config, spec oracle on what
-robsd-config did.
+robsd-config did.  The oracle is the reader on the PURELY documented tables (Conf/ConfOracle.v doc_tables): acceptance of the
+text, then every template line, each side with its own failing lines dropped.  A verdict inside one of the exception classes of
+Conf/DocExceptions.v (known findings) carries that class's signature, recognised by a predicate on the case and on the
+documented reader's own diagnostics; every other verdict keeps the generic signatures and is a violation.
 
 Each case is a configuration text for one mode (grammar-derived, or one edit away from such a text), -v
 definitions, EXECDIR, and a template that references every variable of the mode one per line.  The
@@ -24,9 +27,36 @@ TRUSTED = ['translator t_conf.py (anchored patterns on mode.h, conf-token.h, con
            'environment answers of the model come from the real file system / passwd database at run time (every query the model makes is resolved '
            'by the harness with os.stat, pwd.getpwnam, glob.glob, open); ncpu from os.sysconf, MACHINE/MACHINE_ARCH from the built config.h, '
            'inet/inet6 read once through the implementation itself',
-           'DocSpec.v is a hand transcription of the five *.conf.5 pages and robsd-config.8']
+           'Conf/DocSpec.v is a hand transcription of the five *.conf.5 pages and robsd-config.8 (every row annotated page:line, rules R1-R6 in its header); '
+           'Conf/DocExceptions.v is the hand-typed list of differences to the C tables, proved exact by computation (C08_doc_exceptions_exact); the python '
+           'predicates that map an oracle verdict to an exception class (UNDOC_*, NOROW in c08.py) are a hand copy of that list']
 
 MAX_ATTEMPTS = 40
+
+# ---- the exception classes of Conf/DocExceptions.v, as predicates on names (hand copy; the Coq side proves the list exact) ----
+UNDOC_ALL = [b'build-user', b'exec-dir', b'report-path', b'tags-path', b'trace']            # rows of common_grammar no page mentions
+UNDOC_REGRESS = re.compile(rb'regress-.*-(parallel|targets)')                                 # pattern rows no page mentions
+NOROW = {'robsd-regress': re.compile(rb'regress-obj|regress-.*-(quiet|root)'), 'robsd-cross': re.compile(rb'target')}
+SIG_UNDOC = 'undocumented-variable-readable'
+SIG_NOROW = 'documented-variable-undefined-when-unset'
+SIG_DIR = 'documented-directory-not-checked'
+SIG_REP = 'regress-env-repeatable-undocumented'
+SIG_D7 = 'canvas-accepts-undocumented-robsddir'
+SIG_STEP = 'canvas-step-without-command-rejected'
+
+
+def undocumented(mode, name):
+    return name in UNDOC_ALL or (mode == 'robsd-regress' and UNDOC_REGRESS.fullmatch(name) is not None)
+
+
+def documented_without_row(mode, name):
+    return mode in NOROW and NOROW[mode].fullmatch(name) is not None
+
+
+def unknown_name(diag):
+    """the variable an `invalid substitution, unknown variable` diagnostic names, else None"""
+    m = re.fullmatch(r'[cns]\|\d+\|interp:unknown:([0-9a-f]*|-)', diag)
+    return None if not m else common.unhex(m.group(1))
 
 
 def gen_case(rng, g):
@@ -90,7 +120,7 @@ def evaluate(ctx, cases, res, world=None, drv=None):
     if world is None:
         impl = ctx.build_impl()
         world = cc.World(ctx, impl)
-    drv = drv or ctx.build_driver('cf', withz=True)
+    drv = drv or cc.build_driver(ctx, 'cf', withz=True)
     with ThreadPoolExecutor(16) as ex:
         runs = list(ex.map(lambda c: attempts_for(world, c), cases))
     questions = []
@@ -98,8 +128,38 @@ def evaluate(ctx, cases, res, world=None, drv=None):
         for a in atts:
             questions.append((ci, model_line(world, cases[ci], a['stdin'], a.get('novars', False))))
     answers, envs = cc.driver_rounds(world, drv, questions, cases, lambda pre, env: ' '.join(pre + env))
-    # the specification oracle: the reader on the documented tables, same inputs
-    sanswers, _ = cc.driver_rounds(world, drv, [(ci, ['spec'] + q[1:]) for ci, q in questions], cases, lambda pre, env: ' '.join(pre + env))
+    # the specification oracle: the reader on the PURELY documented tables (Conf/ConfOracle.v doc_tables), asked independently:
+    # acceptance of the text alone, then the template with its own failing lines dropped one by one
+    sfirst, _ = cc.driver_rounds(world, drv, [(ci, ['specd'] + model_line(world, cases[ci], b'', True)[1:]) for ci in range(len(cases))],
+                                 cases, lambda pre, env: ' '.join(pre + env))
+    slines = []
+    for ci in range(len(cases)):
+        ls = world.sub(bytes.fromhex(cases[ci]['stdin'])).split(b'\n')
+        if ls and ls[-1] == b'':
+            ls.pop()
+        slines.append(ls)
+    sdropped = [[] for _ in cases]
+    sfinal = [None] * len(cases)
+    todo = [ci for ci in range(len(cases)) if sfirst[ci].split()[0] == '0']
+    for _ in range(MAX_ATTEMPTS):
+        if not todo:
+            break
+        sa, _ = cc.driver_rounds(world, drv, [(ci, ['specd'] + model_line(world, cases[ci], b''.join(l + b'\n' for l in slines[ci]))[1:]) for ci in todo],
+                                 cases, lambda pre, env: ' '.join(pre + env))
+        nxt = []
+        for ci, a in zip(todo, sa):
+            f = a.split()
+            dg = f[4:4 + int(f[3])]
+            m = re.fullmatch(r's\|(\d+)\|(interp:.*)', dg[-1]) if (f[0] == '1' and dg) else None
+            if m and 1 <= int(m.group(1)) <= len(slines[ci]):
+                sdropped[ci].append((slines[ci][int(m.group(1)) - 1], m.group(2)))
+                del slines[ci][int(m.group(1)) - 1]
+                nxt.append(ci)
+            else:
+                sfinal[ci] = a
+        todo = nxt
+    for ci in todo:
+        sfinal[ci] = '1 - 0 0'
     qi = 0
     for ci, (conf, atts, dropped) in enumerate(runs):
         case = cases[ci]
@@ -107,7 +167,6 @@ def evaluate(ctx, cases, res, world=None, drv=None):
         first = atts[0]
         final = atts[-1]
         for a in atts:
-            a['spec'] = sanswers[qi]
             impl_s = ' '.join([str(a['rc'] if a['rc'] >= 0 else 999), hexs(a['out']), '0', str(len(a['diags']))] + a['diags'])
             mf = answers[qi].split()
             a['model_trap'] = len(mf) > 2 and mf[2] == '1'
@@ -132,25 +191,38 @@ def evaluate(ctx, cases, res, world=None, drv=None):
         res.count('kind %s -> %s' % (case['kind'], outcome))
         if case['kind'] != 'valid' or len(bytes.fromhex(case['text'])) > 60:
             res.nontrivial.add(hashlib.sha1((case['mode'] + case['text'] + repr(case.get('vars'))).encode()).hexdigest())
-        oracle(world, case, conf, atts, dropped, accepted, res)
+        oracle(world, case, conf, atts, dropped, accepted, res, sfirst[ci], sfinal[ci], sdropped[ci])
     return world
 
 
-def oracle(world, case, conf, atts, dropped, accepted, res):
-    """what the property demands of the implementation's behaviour, independent of the model"""
+def line_values(out):
+    """output of the all-variables template -> {name: value line}; the lines are name=<value>"""
+    d = {}
+    for l in out.split(b'\n'):
+        if b'=<' in l:
+            d.setdefault(l.split(b'=<', 1)[0], l)
+    return d
+
+
+def oracle(world, case, conf, atts, dropped, accepted, res, sfirst, sfinal, sdropped):
+    """what the property demands of the implementation's behaviour, independent of the model of the code: the reader on the
+    documented tables.  Every verdict is emitted.  A verdict that falls into one of the exception classes of
+    Conf/DocExceptions.v carries that class's signature - recognised by a predicate on the case AND on the documented reader's
+    own diagnostics (which name the row) - everything else keeps the general signatures."""
     first, final = atts[0], atts[-1]
+    mode = case['mode']
 
     def fail(sig, what, **kw):
         res.oracle_failures.append(dict({'case': case, 'signature': sig, 'what': what, 'stderr': first['err'][-300:].decode('latin1')}, **kw))
     for a in atts:
         if a['rc'] not in (0, 1):
             if a.get('model_trap') and a['rc'] in (-11, 139):
-                # D18 (repaired in /repo 35cfab1) = death by stack exhaustion (SIGSEGV) where the model flags the trap; any other
+                # D21 (repaired in /repo 35cfab1) = death by stack exhaustion (SIGSEGV) where the model flags the trap; any other
                 # signal (SIGILL of __builtin_trap, SIGABRT of an assert) is a different trap site
                 fail('config-builddir-reentry', 'robsd-config terminated with status %d: ${builddir} needed while ${builddir} is being computed '
                      '(config_default_build_dir re-entered without bound)' % a['rc'])
                 return
-            fail('abnormal-termination', 'robsd-config terminated with status %d' % a['rc'])
+            fail('hang' if a['rc'] == -999 else 'abnormal-termination', 'robsd-config terminated with status %d' % a['rc'])
             return
         if a['rc'] != 0 and a['out']:
             fail('partial-output-on-failure', 'exit %d with %d bytes on stdout' % (a['rc'], len(a['out'])))
@@ -159,46 +231,97 @@ def oracle(world, case, conf, atts, dropped, accepted, res):
             fail('reject-diagnostic-lacks-file-name', 'exit %d but no diagnostic names the configuration file or the template: %r' % (a['rc'], a['diags'][:3]))
         if a['rc'] == 0 and a['diags']:
             fail('diagnostic-on-success', 'exit 0 with diagnostics %r' % a['diags'][:3])
-    # acceptance and values against the documented grammar/defaults (Conf/ConfInst.v spec_config)
-    sp0 = first['spec'].split()
+    # ---- acceptance against the documented grammar
+    sp0 = sfirst.split()
     spec_accept = sp0[0] == '0'
-    text = bytes.fromhex(case['text'])
+    sdiags = sp0[4:4 + int(sp0[3])]
+    text = world.sub(bytes.fromhex(case['text']))
     if accepted and not spec_accept:
-        if case['mode'] == 'canvas' and re.search(rb'(^|[\s}"])robsddir([\s"{]|$)', text):
-            fail('canvas-accepts-undocumented-robsddir', 'canvas mode accepts a configuration assigning robsddir, a keyword canvas.conf.5 does not have')
-        else:
-            fail('accepts-nonconforming', 'robsd-config accepts a configuration that does not conform to the documented grammar of ' + case['mode'])
-    elif not accepted and spec_accept:
-        fail('rejects-conforming', 'robsd-config rejects a configuration that conforms to the documented grammar of %s: %r' % (case['mode'], first['diags'][:3]))
-    elif accepted:
-        for a in atts[1:]:
-            sp = a['spec'].split()
-            m = re.fullmatch(r's\|(\d+)\|interp:.*', a['diags'][-1]) if a['diags'] else None
-            impl_t = (a['rc'], hexs(a['out']), int(m.group(1)) if m else 0)
-            spec_t = (int(sp[0]), sp[1], int(sp[3]))
-            if impl_t == spec_t or (a['rc'] != 0 and not m):
-                continue          # -v refusals are not a matter of the documented tables
-            if impl_t[0] != spec_t[0] or impl_t[2] != spec_t[2]:
-                ls = a['stdin'].split(b'\n')
-                n = impl_t[2] or spec_t[2]
-                fail('template-outcome-differs', 'line %r of the template: robsd-config exit %d (failing line %d), documented tables exit %d (failing line %d)'
-                     % (ls[n - 1][:60] if 0 < n <= len(ls) else b'', impl_t[0], impl_t[2], spec_t[0], spec_t[2]))
-                break
-            il, sl = a['out'].split(b'\n'), common.unhex(sp[1]).split(b'\n')
-            k = next((i for i in range(min(len(il), len(sl))) if il[i] != sl[i]), min(len(il), len(sl)))
-            line = il[k] if k < len(il) else b''
-            name = line.split(b'=', 1)[0].decode('latin1')
-            rd = [l for l in il if l.startswith(b'rd=')]
-            rep = False
-            for l in rd:
-                v = l[3:].split()
-                rep = rep or any(v[i] == v[i - 1] for i in range(1, len(v)))
-            if rep or name == 'rd':
-                fail('rdomain-repeats-after-wrap', 'successive ${rdomain} references do not cycle through 11..255: first differing output line %r, documented %r'
-                     % (line[:80], (sl[k] if k < len(sl) else b'')[:80]))
+        sigs = set()
+        for d in sdiags:
+            cls = d.split('|', 2)[2].split(':')[0]
+            nm = unknown_name(d)
+            if mode == 'canvas' and d.split('|', 2)[2] == 'unknown_keyword:' + hexs(b'robsddir'):
+                sigs.add(SIG_D7)                  # the documented reader stumbles over the keyword robsddir, nothing else
+            elif nm is not None and undocumented(mode, nm):
+                sigs.add(SIG_UNDOC)               # ... over a reference to a variable no page documents (directory value, env option)
+            elif mode == 'robsd-ports' and (cls in ('dir_error', 'not_a_directory') or (cls == 'interp' and d[0] == 'c')):
+                # a directory value that does not exist, or does not expand, while the file is read.  robsddir is checked by the
+                # code as well and the code ACCEPTED: the only other documented directories of robsd-ports.conf.5 are chroot and
+                # ports-dir (nothing else is expanded while a robsd-ports.conf is read)
+                sigs.add(SIG_DIR)
+            elif mode == 'robsd-regress' and d.split('|', 2)[2] == 'already_defined:' + hexs(b'regress-env'):
+                sigs.add(SIG_REP)
+            elif cls in ('want', 'unknown_keyword') and mode == 'canvas' and SIG_D7 in sigs:
+                pass                              # error recovery behind the unknown keyword: its value tokens
+            elif cls == 'mandatory_missing' and sigs and re.search(rb'(^|[\s}"])' + re.escape(common.unhex(d.split(':')[-1])) + rb'([\s"{]|$)', text):
+                # consequence of a diagnostic classified above: the required keyword IS in the text, the documented reader could
+                # not define it (its value failed); a required keyword that is absent from the text stays a verdict of its own
+                pass
             else:
-                fail('value-differs:' + name, 'variable %s interpolates to %r, documented value %r' % (name, line[:80], (sl[k] if k < len(sl) else b'')[:80]))
-            break
+                sigs.add('accepts-nonconforming')
+        if not sdiags:
+            sigs.add('accepts-nonconforming')
+        for sg in sorted(sigs):
+            fail(sg, {SIG_D7: 'canvas mode accepts a configuration assigning robsddir, a keyword canvas.conf.5 does not have',
+                      SIG_UNDOC: 'accepted although a value refers to a variable no manual page documents: %r' % sdiags[:2],
+                      SIG_DIR: 'accepted although chroot / ports-dir (directories by robsd-ports.conf.5) do not exist: %r' % sdiags[:2],
+                      SIG_REP: 'regress-env given more than once is accepted; robsd-regress.conf.5 does not make it repeatable'}.get(
+                          sg, 'robsd-config accepts a configuration that does not conform to the documented grammar of %s: %r' % (mode, sdiags[:3])))
+    elif not accepted and spec_accept:
+        names = [unknown_name(d) for d in first['diags']]
+        if names and all(n is not None and documented_without_row(mode, n) for n in names):
+            fail(SIG_NOROW, 'rejected because a value refers to %r, which robsd-config.8 documents but the code only knows once an option defined it' % names[0])
+        else:
+            fail('rejects-conforming', 'robsd-config rejects a configuration that conforms to the documented grammar of %s: %r' % (mode, first['diags'][:3]))
+    elif not accepted and mode == 'canvas' and first['diags'] and all(d.split('|', 2)[2] == 'step_command_missing' for d in first['diags']):
+        # python-side predicate (the documented reader shares the production): canvas.conf.5:24-27 writes step "name" [options]
+        fail(SIG_STEP, 'a step without command is rejected although canvas.conf.5 marks the options of a step as optional')
+    elif accepted:
+        # ---- values: every template line, each side with its own failing lines dropped
+        sf = sfinal.split()
+        if final['rc'] != 0 or sf[0] != '0':
+            if not (final['rc'] != 0 and final['diags'] and all(d.split('|', 2)[2].split(':')[0] in ('cannot_define', 'no_separator') for d in final['diags'])):
+                fail('template-outcome-differs', 'the template does not settle: robsd-config exit %d, documented reader exit %s' % (final['rc'], sf[0]))
+            return
+        ierr = {l: e for l, e in dropped}
+        serr = {l: e for l, e in sdropped}
+        same_kept = set(ierr) == set(serr)
+        for l in sorted(set(ierr) | set(serr)):
+            if l in ierr and l in serr:
+                if ierr[l].split(':')[:2] != serr[l].split(':')[:2]:
+                    sn, inn = unknown_name('s|0|' + serr[l]), unknown_name('s|0|' + ierr[l])
+                    if sn is not None and undocumented(mode, sn):
+                        fail(SIG_UNDOC, 'line %r: the documented reader stops at %r, which no manual page documents; robsd-config goes on (%s)' % (l[:60], sn, ierr[l]))
+                    elif inn is not None and documented_without_row(mode, inn):
+                        fail(SIG_NOROW, 'line %r: unknown variable %r, documented in robsd-config.8' % (l[:60], inn))
+                    else:
+                        fail('template-outcome-differs', 'line %r: robsd-config fails with %s, the documented reader with %s' % (l[:60], ierr[l], serr[l]))
+                continue
+            e = ierr.get(l) or serr.get(l)
+            nm = unknown_name('s|0|' + e)
+            if l in serr and nm is not None and undocumented(mode, nm):
+                fail(SIG_UNDOC, 'line %r: robsd-config yields a value, no manual page documents %r' % (l[:60], nm))
+            elif l in ierr and nm is not None and documented_without_row(mode, nm):
+                fail(SIG_NOROW, 'line %r: unknown variable %r, documented in robsd-config.8' % (l[:60], nm))
+            else:
+                fail('template-outcome-differs', 'line %r: %s fails (%s), the other side yields a value'
+                     % (l[:60], 'robsd-config' if l in ierr else 'the documented reader', e))
+        iv, sv = line_values(final['out']), line_values(common.unhex(sf[1]))
+        for name in sorted(set(iv) & set(sv)):
+            if iv[name] == sv[name]:
+                continue
+            if not same_kept and name in (b'many', b'rd'):
+                res.count('outside: line with several references compared after different lines were dropped')
+                continue
+            if name == b'rd':
+                fail('rdomain-repeats-after-wrap', 'successive ${rdomain} references do not cycle through 11..255: %r, documented %r' % (iv[name][:80], sv[name][:80]))
+            elif name == b'regress-user' and any(bytes.fromhex(v).startswith(b'build-user=') for v in case.get('vars', [])):
+                # OUTSIDE: the property quantifies over configuration texts; -v build-user=... overrides an undocumented variable
+                # through which the code spells the documented default "build" (class XC_default_text)
+                res.count('outside: regress-user default under -v build-user')
+            else:
+                fail('value-differs:' + name.decode('latin1'), 'variable %s interpolates to %r, documented value %r' % (name.decode('latin1'), iv[name][:80], sv[name][:80]))
     # rdomain: successive references distinct, cycling through 11..255
     overridden = any(bytes.fromhex(v).startswith(b'rdomain=') for v in case.get('vars', []))      # -v rdomain=N replaces the counter by design
     if final['rc'] == 0 and not overridden:
